@@ -219,12 +219,18 @@ impl<W: 'static, R: 'static, T: 'static> XGenerator<W, R, T> {
                 })
             }),
             Self::Slice(gen, start, end) => either_g({
-                let mut inner: BIter<_, _, _> = Box::new(to_native!(gen, Self)._iter(ns, rt));
+                let mut inner: BIter<_, _, _> =
+                    Box::new(to_native!(gen, Self)._iter(ns, rt.clone()));
                 // `Iterator::skip` would discard a violation raised while producing a skipped element
                 let mut to_skip = *start;
+                // skipping is a native loop over the elements, bounded by the search limit
+                let mut skip_budget = rt.limits.search_iter();
                 let skipped = iter::from_fn(move || {
                     while to_skip > 0 {
                         to_skip -= 1;
+                        if let Some(Err(violation)) = skip_budget.next() {
+                            return Some(Err(violation));
+                        }
                         if let Err(violation) = inner.next()? {
                             return Some(Err(violation));
                         }
